@@ -1063,6 +1063,7 @@ void llbuild::basic::spawnProcess(
     assert(readfds[0].fd == outputPipeParentEnd.unsafeDescriptor());
     assert(readfds[1].fd == controlPipeParentEnd.unsafeDescriptor());
 
+    bool pollFailed = false;
     while (poll(readfds, nfds, -1) == -1) {
         int err = errno;
 
@@ -1071,8 +1072,14 @@ void llbuild::basic::spawnProcess(
         } else {
           delegate.processHadError(ctx, handle,
             Twine("failed to poll (") + strerror(err) + ")"); 
-          return;
+          pollFailed = true;
+          break;
         }
+    }
+    if (pollFailed) {
+      // We cannot read from the process any more; stop polling and fall
+      // through so that it is still reaped and its completion is reported.
+      break;
     }
 
     for (int i = 0; i < nfds; i++) {
